@@ -110,6 +110,20 @@ NUMPY2_ONLY = {"concat", "permute_dims", "matrix_transpose", "vecdot", "astype",
 
 
 # standard-library names newer than Python 3.9 (name -> minor version that introduced it); a denylist like NUMPY2_ONLY: incomplete by nature
+# names / modules of the standard library that exist on SOME operating systems only, and calls whose meaning differs between them: the package is a pure-Python
+# distribution without an operating-system classifier, i.e. declared OS independent.  A denylist (incomplete by nature); uses behind `hasattr(os, "name")`,
+# `try ... except AttributeError` or a `sys.platform` / `os.name` test are exempt.
+PLATFORM_ONLY_ATTRS = {"os": {"sched_getaffinity": "Linux", "sched_setaffinity": "Linux", "fork": "POSIX", "getuid": "POSIX", "geteuid": "POSIX", "getgid": "POSIX", "getpgid": "POSIX",
+                              "setsid": "POSIX", "uname": "POSIX", "getloadavg": "POSIX", "mkfifo": "POSIX", "chown": "POSIX", "nice": "POSIX", "killpg": "POSIX", "wait": "POSIX",
+                              "O_BINARY": "Windows", "startfile": "Windows", "posix_fadvise": "Linux", "sendfile": "POSIX", "pipe2": "Linux", "memfd_create": "Linux",
+                              "cpu_count_affinity": "Linux"},
+                       "signal": {"SIGALRM": "POSIX", "SIGKILL": "POSIX", "SIGUSR1": "POSIX", "SIGHUP": "POSIX", "alarm": "POSIX", "setitimer": "POSIX", "pthread_kill": "POSIX"},
+                       "time": {"clock_gettime": "POSIX", "tzset": "POSIX"}, "socket": {"AF_UNIX": "POSIX"}}
+PLATFORM_ONLY_MODULES = {"fcntl": "POSIX", "resource": "POSIX", "pwd": "POSIX", "grp": "POSIX", "termios": "POSIX", "tty": "POSIX", "pty": "POSIX", "syslog": "POSIX",
+                         "msvcrt": "Windows", "winreg": "Windows", "winsound": "Windows", "_winapi": "Windows", "posix": "POSIX", "nt": "Windows"}
+# calls that mean different things on different systems: `os.rename` onto an EXISTING target replaces it on POSIX and raises FileExistsError on Windows (`os.replace` is
+# the portable call)
+PLATFORM_SEMANTICS = {"os": {"rename": "replaces an existing target on POSIX, raises FileExistsError on Windows (os.replace is the portable call)"}}
 STDLIB_NEWER = {
     "typing": {"TypeAlias": 10, "ParamSpec": 10, "Concatenate": 10, "TypeGuard": 10, "ParamSpecArgs": 10, "ParamSpecKwargs": 10, "is_typeddict": 10, "Self": 11, "LiteralString": 11,
                "Never": 11, "assert_never": 11, "assert_type": 11, "reveal_type": 11, "Required": 11, "NotRequired": 11, "Unpack": 11, "TypeVarTuple": 11, "dataclass_transform": 11,
@@ -150,6 +164,14 @@ def declared_environment(out: Outcome) -> None:
         return q if q in files else None
 
     live, todo = set(), [f for f in files if f.name == "__init__.py"]
+    # a package whose __init__ imports nothing is used through its modules (`from frouros.datasets.real import Elec2`): they are entry points too
+    for init in list(todo):
+        try:
+            has_imports = any(isinstance(n, (ast.Import, ast.ImportFrom)) for n in ast.walk(ast.parse(init.read_text())))
+        except SyntaxError:
+            has_imports = True
+        if not has_imports:
+            todo += [f for f in files if f.parent == init.parent and not f.name.startswith("_")]
     while todo:
         f = todo.pop()
         if f in live:
@@ -217,6 +239,15 @@ def declared_environment(out: Outcome) -> None:
                     for x in ast.walk(node):
                         if isinstance(x, ast.Attribute) and x.attr in tested:
                             guarded_attrs[id(x)] = True
+        # inside `if sys.platform ...` / `if os.name ...` / `if platform.system() ...` (either branch): platform-specific code behind a platform test
+        platform_guarded = set()
+        for node in ast.walk(tree):
+            if isinstance(node, (ast.If, ast.IfExp)) and any((isinstance(c, ast.Attribute) and ((c.attr == "platform" and isinstance(c.value, ast.Name) and c.value.id == "sys")
+                                                                  or (c.attr == "name" and isinstance(c.value, ast.Name) and c.value.id == "os")
+                                                                  or (c.attr == "system" and isinstance(c.value, ast.Name) and c.value.id == "platform")))
+                                                                 for c in ast.walk(node.test)):
+                platform_guarded |= {id(x) for x in ast.walk(node)}
+        platform_guarded |= set(guarded_attrs) | attr_try | guarded_imports
         version_guard = {}
         for node in ast.walk(tree):
             if isinstance(node, ast.If) and isinstance(node.test, ast.Compare) and len(node.test.ops) == 1 and isinstance(node.test.ops[0], (ast.GtE, ast.Gt)) \
@@ -254,6 +285,17 @@ def declared_environment(out: Outcome) -> None:
                     and STDLIB_NEWER[node.value.id][node.attr] > version_guard.get(id(node), minor):
                 out.violation(f"{rel}:{node.lineno}: {node.value.id}.{node.attr} needs Python 3.{STDLIB_NEWER[node.value.id][node.attr]}, the package declares >= 3.{minor}",
                               {"kind": "stdlib api", "file": rel, "name": f"{node.value.id}.{node.attr}"})
+            if isinstance(node, ast.Attribute) and isinstance(node.value, ast.Name) and node.attr in PLATFORM_ONLY_ATTRS.get(node.value.id, {}) and id(node) not in platform_guarded:
+                out.violation(f"{rel}:{node.lineno}: {node.value.id}.{node.attr} exists on {PLATFORM_ONLY_ATTRS[node.value.id][node.attr]} only; the package declares no operating system "
+                              "(a pure-Python distribution) and the use is not behind a hasattr / platform guard", {"kind": "platform api", "file": rel, "name": f"{node.value.id}.{node.attr}"})
+            if isinstance(node, ast.Attribute) and isinstance(node.value, ast.Name) and node.attr in PLATFORM_SEMANTICS.get(node.value.id, {}) and id(node) not in platform_guarded:
+                out.violation(f"{rel}:{node.lineno}: {node.value.id}.{node.attr} {PLATFORM_SEMANTICS[node.value.id][node.attr]}; the package declares no operating system",
+                              {"kind": "platform semantics", "file": rel, "name": f"{node.value.id}.{node.attr}"})
+            if isinstance(node, (ast.Import, ast.ImportFrom)) and id(node) not in platform_guarded:
+                for modname in ([a.name for a in node.names] if isinstance(node, ast.Import) else ([node.module] if node.level == 0 and node.module else [])):
+                    if modname.split(".")[0] in PLATFORM_ONLY_MODULES:
+                        out.violation(f"{rel}:{node.lineno}: module {modname} exists on {PLATFORM_ONLY_MODULES[modname.split('.')[0]]} only; the package declares no operating system",
+                                      {"kind": "platform module", "file": rel, "name": modname})
             if isinstance(node, ast.Attribute) and isinstance(node.value, ast.Name) and node.value.id in (np_aliases or {"np"}) and node.attr in NUMPY2_ONLY:
                 out.violation(f"{rel}:{node.lineno}: numpy.{node.attr} exists only from NumPy 2.0 on, the package declares numpy >= 1.26.3", {"kind": "numpy api", "file": rel, "name": node.attr})
     out.case({"declared_environment_audit": True, "python_min": f"3.{minor}", "declared": sorted(declared)})
